@@ -957,7 +957,10 @@ func (i *Interpreter) ApplyTypeDefaults(obj map[string]interface{}, typeDef Type
 // executeFunction executes a user-defined function
 func (i *Interpreter) executeFunction(fn Function, args []Expr, env *Environment) (interface{}, error) {
 	// Create a new environment for the function
-	fnEnv := NewChildEnvironment(env)
+	// Its parent is the module scope, not the caller's scope: a function body
+	// sees its parameters, its own locals and module-level names, never the
+	// locals of whoever calls it (arguments are still evaluated in env below).
+	fnEnv := NewChildEnvironment(i.globalEnv)
 
 	// Count required parameters (those marked required without defaults)
 	requiredCount := 0
@@ -1087,7 +1090,8 @@ func (i *Interpreter) executeGenericFunction(fn Function, typeArgs []Type, args 
 	}()
 
 	// Create a new environment for the function
-	fnEnv := NewChildEnvironment(env)
+	// (child of the module scope, see executeFunction)
+	fnEnv := NewChildEnvironment(i.globalEnv)
 
 	// Validate argument count
 	if len(argValues) != len(instantiatedFn.Params) {
@@ -1462,7 +1466,8 @@ func (i *Interpreter) callWithPipedArg(fn interface{}, pipedVal interface{}, ext
 // executeFunctionWithValues executes a user-defined function with pre-evaluated argument values
 func (i *Interpreter) executeFunctionWithValues(fn Function, argVals []interface{}, env *Environment) (interface{}, error) {
 	// Create a new environment for the function
-	fnEnv := NewChildEnvironment(env)
+	// (child of the module scope, see executeFunction)
+	fnEnv := NewChildEnvironment(i.globalEnv)
 
 	// Count required parameters (those marked required without defaults)
 	requiredCount := 0
